@@ -30,7 +30,7 @@ REQUIRED_MONITORS = ["weights_nonnegative", "weights_sum_to_one", "flat_unchange
                      "q_calc_strictly_positive", "support_spans_window", "zero_width_exact", "constructs", "invariant_evaluations"]
 REQUIRED_BUCKETS = {"quick": ["geom:pinhole", "geom:slit(L,0)", "geom:slit(0,W)", "geom:slit(L,W)", "geom:2d",
                               "grid:linear", "grid:log", "grid:irregular", "qcalc:default", "qcalc:user", "n:1", "n:2",
-                              "sigma>q", "zero_width", "grid_extension_hits_zero", "perpoint", "directmodel", "directmodel:mixed-zero", "directmodel:widths-changed-on-same-data-object", "acc:low", "acc:med", "acc:high",
+                              "sigma>q", "zero_width", "grid_extension_hits_zero", "perpoint", "directmodel", "directmodel:mixed-zero", "directmodel:widths-changed-on-same-data-object", "q-order:not-ascending", "acc:low", "acc:med", "acc:high",
                               "acc:xhigh"]}
 REQUIRED_BUCKETS["thorough"] = REQUIRED_BUCKETS["quick"]
 
@@ -190,6 +190,10 @@ def run_batch(case, rec):
         n = forced_n or int(rng.choice([3, 5, 12, 40, 120, 500], p=[0.2, 0.2, 0.25, 0.2, 0.1, 0.05]))
         q = make_grid(rng, kind, n)
         n = len(q)
+        if k % 5 == 4 and n > 2:
+            # the same points listed in another order (descending scans, merged files)
+            q = q[::-1].copy() if (case["batch"] + k) % 2 else q[rng.permutation(n)]
+            rec.bucket("q-order:not-ascending")
         hits_zero = (geom == "pinhole" and k == 2)
         if hits_zero:
             # constructive: the symmetric linear extension of this grid lands exactly on q = 0
@@ -216,24 +220,24 @@ def run_batch(case, rec):
                     rec.bucket("sigma>q")
                 qc = None
                 if user_qcalc:
-                    lo, hi = max(float(np.min(q - 2.5*sig)), float(q[0])*0.03), float(np.max(q + 3*sig))
+                    lo, hi = max(float(np.min(q - 2.5*sig)), float(np.min(q))*0.02), float(np.max(q + 3*sig))
                     extra = np.linspace(lo, hi, int(rng.integers(50, 400)))
                     qc = _merge(q, extra, zero)
                 ctx.update(sigma_rel=rel if not zero else 0.0, _widths=(sig,))
                 _run_1d(rec, lambda: resolution.Pinhole1D(q, sig, q_calc=qc), q, zero, ctx, geom, n)
             elif geom.startswith("slit"):
-                span = float(q[-1] - q[0]) if n > 1 else float(q[0])
-                L = float(10**rng.uniform(-3, 0))*max(span, float(q[0])) if "L" in geom else 0.0
-                W = float(10**rng.uniform(-3, 0))*max(span, float(q[0])) if "W" in geom else 0.0
+                span = float(np.max(q) - np.min(q)) if n > 1 else float(q[0])
+                L = float(10**rng.uniform(-3, 0))*max(span, float(np.min(q))) if "L" in geom else 0.0
+                W = float(10**rng.uniform(-3, 0))*max(span, float(np.min(q))) if "W" in geom else 0.0
                 if zero:
                     L = W = 0.0
                 Lv = np.full(n, L)*(rng.uniform(0.7, 1.3, n) if perpoint and L else 1.0)
                 Wv = np.full(n, W)*(rng.uniform(0.7, 1.3, n) if perpoint and W else 1.0)
                 qc = None
                 if user_qcalc:
-                    lo = max(float(np.min(np.abs(q - Wv))), float(q[0])*0.03) if W else float(q[0])
+                    lo = max(float(np.min(np.abs(q - Wv))), float(np.min(q))*0.02) if W else float(np.min(q))
                     if W and np.any(q < Wv):
-                        lo = float(q[0])*0.03
+                        lo = float(np.min(q))*0.02
                     hi = float(np.max(np.sqrt((q + Wv)**2 + Lv**2)))
                     extra = np.linspace(lo, hi*1.001, int(rng.integers(100, 600)))
                     qc = _merge(q, extra, zero)
